@@ -595,11 +595,18 @@ class Element:
         else:
             pairs = []
         if self.children_flattenable:
-            pairs.extend(
-                (e.flattened_name(sep), value(e))
-                for e in self.all_children
-                if e.flattenable
-            )
+            # breadth-first, as all_children, but never descending below an
+            # element that presents itself as a single value
+            seen, queue = {id(self)}, collections.deque(self.children)
+            while queue:
+                element = queue.popleft()
+                if id(element) in seen:
+                    continue
+                seen.add(id(element))
+                if element.flattenable:
+                    pairs.append((element.flattened_name(sep), value(element)))
+                if element.children_flattenable:
+                    queue.extend(element.children)
         return pairs
 
     def set(self, obj):
